@@ -45,6 +45,15 @@ CHECKS = {
  "C19": dict(tech="differential monitor (x.md vs extracted x.bnf bytes) plus diagnostic-position oracle computed by the generator",
    text="Exploration: grammars are laid out in fenced blocks between hostile prose; generated bytes must equal those for the extracted fenced text, and an injected stray token must be diagnosed at its line:column in the .md file.",
    note="Fences on their own lines, valid UTF-8, no ``` inside prose or code (the property's stated domain).", ref="4/C19"),
+ "C15": dict(tech="in-process monitor: shipped front-end tables + shipped Parse loop with recording reduce stubs vs M-SPEC (Earley membership, M-LR1 derivation)",
+   text="Exploration, exhaustive within a bound: every token sequence up to 4 (quick) / 5 (thorough) tokens over the 21-token alphabet, plus random sentences and mutants; acceptance must equal membership in spec/gocc2.ebnf and each reduction must be the spec production with the same head and body.",
+   note="Spec read by the harness's own reader; AST-level semantic checks excluded (C14).", ref="4/C15"),
+ "C18": dict(tech="in-process invariant monitor on DisjunctRangeSet (exhaustive small sequences + random) + in-situ hook in every gocc run + read-back of generated case ranges",
+   text="Exploration, exhaustive within a bound: all AddRange sequences of up to 3/4 intervals over 6/7 consecutive points at both ends of the rune range, random sequences of up to 12 intervals, the Classes hook on every lexer state of random grammars inside the real gocc, and the case ranges of generated transitiontable.go; oracle: sorted, disjoint, non-empty, exact union, every added interval a union of classes.",
+   note="Oracle implemented twice (probe, hook).", ref="4/C18"),
+ "C20": dict(tech="in-process differential monitor against strconv over every valid code point and spelling; read-back of literals through a real gocc run",
+   text="Exploration (thorough: exhaustive over all valid code points x all covered spellings): generated util.RuneValue and gocc's own LitToRune against strconv.UnquoteChar; IntValue/UintValue against strconv.ParseInt/ParseUint on boundary and random decimal strings; literals pushed through gocc and read back from the generated transition table.",
+   note="strconv defines Go's literal semantics.", ref="4/C20"),
 }
 
 NOT_YET = "check not built yet in this tree (work in progress; see DESIGN.md section 4 for the planned monitor)"
